@@ -23,7 +23,13 @@ func c19key(c *Ctx) *ecdsa.PrivateKey {
 
 // c19record builds a signed node record whose "pv" entry is absent, a byte string, or something that does not decode.
 func c19record(key *ecdsa.PrivateKey, kind string, vs []byte) *enode.Node {
+	return c19recordSeq(key, kind, vs, 0)
+}
+
+// c19recordSeq: the same with a chosen sequence number (an older and a newer record of one identity).
+func c19recordSeq(key *ecdsa.PrivateKey, kind string, vs []byte, seq uint64) *enode.Node {
 	var r enr.Record
+	r.SetSeq(seq)
 	r.Set(enr.IP{127, 0, 0, 1})
 	r.Set(enr.UDP(30303))
 	switch kind {
